@@ -136,6 +136,7 @@ inline json gen_box(int kind, int max_ratio = 0) {
       else if (mode < 4) t = -0.5;
       else if (mode < 7) t = 0.0;
       else if (mode < 16) t = double(ri(-16, 16)) / 32.0;
+      else if (mode < 18) t = (rbool() ? 1.0 : -1.0) * std::ldexp(1.0, -ri(21, 40));  // barely tilted (1e-12..5e-7 of the edge)
       else t = rreal(-0.5, 0.5);
       return e * t;
     };
